@@ -3,7 +3,8 @@
 (* Configuration identity: what a YAML pipeline text MEANS versus how it   *)
 (* is written.  A configuration text is modelled with exactly the          *)
 (* degrees of freedom a YAML author has:                                   *)
-(*   cfg = Seq of node texts  [proc, ps, flow, quoted, sweep]              *)
+(*   cfg = Seq of node texts  [proc, ps, flow, quoted, alias, sweep]       *)
+(*   alias: the node is written as a YAML alias of an earlier equal node   *)
 (*   ps   : SEQUENCE of parameter entries [k, v, sp, sub] -- ordered, each *)
 (*          scalar with a spelling index sp (1.0 / 1.00 / +1.0 / 1e0), sub *)
 (*          a nested mapping given as a sequence of [k, v, sp] entries     *)
@@ -49,7 +50,11 @@ Meaning(c) == [i \in 1..Len(c) |-> NodeMeaning(c[i])]
 
 (******************************* cosmetic actions *************************)
 SwapAt(s, i) == [j \in 1..Len(s) |-> IF j = i THEN s[i + 1] ELSE IF j = i + 1 THEN s[i] ELSE s[j]]
-SetNode(i, n) == cfg' = [cfg EXCEPT ![i] = n]
+\* a node written as a YAML alias (*nK) of an earlier, equal node K: alias = K (0 = written out).  Nodes taking
+\* part in an alias pair are not rewritten further (the alias would silently follow its anchor).
+Involved(i) == cfg[i].alias # 0 \/ \E j \in 1..Len(cfg) : cfg[j].alias = i
+NoAliases == \A j \in 1..Len(cfg) : cfg[j].alias = 0
+SetNode(i, n) == ~Involved(i) /\ cfg' = [cfg EXCEPT ![i] = n]
 
 PermuteKeys == \E i \in 1..Len(cfg) : \E j \in 1..(Len(cfg[i].ps) - 1) :
                   SetNode(i, [cfg[i] EXCEPT !.ps = SwapAt(@, j)]) /\ last' = "PermuteKeys"
@@ -66,7 +71,10 @@ CommuteExpr == \E i \in 1..Len(cfg) :
                   /\ SetNode(i, [cfg[i] EXCEPT !.sweep.expr = <<@[1], @[3], @[2]>>]) /\ last' = "CommuteExpr"
 PermuteVars == \E i \in 1..Len(cfg) : cfg[i].sweep.on /\ cfg[i].sweep.ctx2
                   /\ SetNode(i, [cfg[i] EXCEPT !.sweep.vorder = ~@]) /\ last' = "PermuteVars"
-Cosmetic == PermuteKeys \/ PermuteSubKeys \/ Respell \/ Requote \/ Reflow \/ CommuteExpr \/ PermuteVars
+Alias == \E i, j \in 1..Len(cfg) : /\ i < j /\ ~Involved(i) /\ ~Involved(j)
+                                    /\ NodeMeaning(cfg[i]) = NodeMeaning(cfg[j])
+                                    /\ cfg' = [cfg EXCEPT ![j].alias = i] /\ last' = "Alias"
+Cosmetic == PermuteKeys \/ PermuteSubKeys \/ Respell \/ Requote \/ Reflow \/ CommuteExpr \/ PermuteVars \/ Alias
 
 (******************************* semantic actions *************************)
 OtherProc(p) == IF p = "FloatMultiplyOperation" THEN "VNestedOperation" ELSE "FloatMultiplyOperation"
@@ -77,12 +85,12 @@ SetParam == \E i \in 1..Len(cfg) : \E j \in 1..Len(cfg[i].ps) :
                /\ SetNode(i, [cfg[i] EXCEPT !.ps[j].v = @ + 1]) /\ last' = "SetParam"
 SetSubParam == \E i \in 1..Len(cfg) : \E j \in 1..Len(cfg[i].ps) : \E m \in 1..Len(cfg[i].ps[j].sub) :
                SetNode(i, [cfg[i] EXCEPT !.ps[j].sub[m].v = @ + 1]) /\ last' = "SetSubParam"
-DropNode == /\ Len(cfg) > 1
+DropNode == /\ Len(cfg) > 1 /\ NoAliases
             /\ \E i \in 1..Len(cfg) : cfg' = [j \in 1..(Len(cfg) - 1) |-> IF j < i THEN cfg[j] ELSE cfg[j + 1]]
             /\ last' = "DropNode"
-DupNode == \E i \in 1..Len(cfg) : ~cfg[i].sweep.on
+DupNode == \E i \in 1..Len(cfg) : ~cfg[i].sweep.on /\ NoAliases
               /\ cfg' = [j \in 1..(Len(cfg) + 1) |-> IF j <= i THEN cfg[j] ELSE cfg[j - 1]] /\ last' = "DupNode"
-SwapNodes == \E i \in 1..(Len(cfg) - 1) : NodeMeaning(cfg[i]) # NodeMeaning(cfg[i + 1])
+SwapNodes == \E i \in 1..(Len(cfg) - 1) : NoAliases /\ NodeMeaning(cfg[i]) # NodeMeaning(cfg[i + 1])
                 /\ cfg' = SwapAt(cfg, i) /\ last' = "SwapNodes"
 SweepField(f) == \E i \in 1..Len(cfg) : cfg[i].sweep.on /\
     CASE f = "vals"  -> SetNode(i, [cfg[i] EXCEPT !.sweep.vals = Append(@, 9)])
@@ -111,7 +119,7 @@ Next == /\ steps < MaxSteps /\ steps' = steps + 1 /\ base' = cfg
         /\ (Cosmetic \/ Semantic)
 Spec == Init /\ [][Next]_vars
 
-CosmeticNames == {"PermuteKeys", "PermuteSubKeys", "Respell", "Requote", "Reflow", "CommuteExpr", "PermuteVars"}
+CosmeticNames == {"PermuteKeys", "PermuteSubKeys", "Respell", "Requote", "Reflow", "CommuteExpr", "PermuteVars", "Alias"}
 CosmeticKeepsMeaning == (last \in CosmeticNames) => Meaning(cfg) = Meaning(base)
 SemanticChangesMeaning == (last # "" /\ last \notin CosmeticNames) => Meaning(cfg) # Meaning(base)
 
